@@ -2,7 +2,8 @@
    Part A: checksum library (sum8 / sum16).   Part B: single-byte changes of a buffer.
    Part C: inversion and totality of the validate model.   Part D: volume header.
    Part E: files (local, then inside a volume).   Part F: no false alarm for assembler output.
-   Part G: witnesses (side condition, pinned body-checksum check). *)
+   Part G: witnesses against the pinned validate (free-space marker, body-checksum check).
+   Part H: the statements for the depth-fuelled parsers of Model/Ffs.v. *)
 From Coq Require Import ZifyBool ZifyNat.
 From Fiano Require Import Base.Bytes Base.BytesLemmas Gen.Consts Model.Ffs Model.Validate.
 Open Scope Z_scope.
@@ -322,7 +323,7 @@ Lemma vlist_eq fx l :
 Proof. induction l as [|x l IH]; [reflexivity|]. cbn [validate_list_gen]. rewrite <- IH. reflexivity. Qed.
 
 Lemma validate_gen_vol fx h buf kids : validate_gen fx (NVol h buf kids) =
-  (do a <- validate_vol h buf; do b <- validate_list_gen fx kids; Ok (a ++ b)).
+  (do a <- validate_vol_gen fx h buf; do b <- validate_list_gen fx kids; Ok (a ++ b)).
 Proof. cbn [validate_gen]. rewrite vlist_eq. reflexivity. Qed.
 
 Lemma validate_gen_file fx h buf kids : validate_gen fx (NFile h buf kids) =
@@ -354,12 +355,14 @@ Fixpoint node_ind2 (P : node -> Prop)
 Ltac unfold_c09 := unfold c09_fv_min_size, c09_fv_fixed_header_size, c09_file_header_min,
   c09_file_header_ext_min, c09_section_ext_min, c09_empty_body_checksum in *.
 
-Lemma validate_vol_total h buf : exists l, validate_vol h buf = Ok l.
+Lemma validate_vol_total fx h buf : exists l, validate_vol_gen fx h buf = Ok l.
 Proof.
-  unfold validate_vol. unfold_c09.
+  unfold validate_vol_gen. unfold_c09.
   destruct (zlen buf <? 64) eqn:E1; [eauto|].
   destruct (v_hdrlen h <? 64) eqn:E2; [eauto|].
   destruct (zlen buf <? v_hdrlen h) eqn:E3; [eauto|].
+  rewrite slice_ok by lia. cbn [of_opt bind].
+  destruct (fx && (0 <? v_freespace h) && (v_freespace h <=? zlen buf)) eqn:E4; cbn [bind]; [|eauto].
   rewrite slice_ok by lia. cbn [of_opt bind]. eauto.
 Qed.
 
@@ -409,7 +412,7 @@ Proof.
   - rewrite validate_gen_sec. destruct (validate_list_total fx kids IH) as [r ->]. cbn [bind]. eauto.
   - rewrite validate_gen_file. destruct (validate_file_total fx h b) as [a ->].
     destruct (validate_list_total fx kids IH) as [r ->]. cbn [bind]. eauto.
-  - rewrite validate_gen_vol. destruct (validate_vol_total h b) as [a ->].
+  - rewrite validate_gen_vol. destruct (validate_vol_total fx h b) as [a ->].
     destruct (validate_list_total fx kids IH) as [r ->]. cbn [bind]. eauto.
 Qed.
 
@@ -423,25 +426,39 @@ Lemma if_nil_true (c : bool) (x : Z) : (if c then [] else [x]) = [] -> c = true.
 Proof. destruct c; [reflexivity|discriminate]. Qed.
 
 (* what a clean volume check says *)
-Lemma validate_vol_clean h buf : validate_vol h buf = Ok [] ->
+Lemma validate_vol_clean fx h buf : validate_vol_gen fx h buf = Ok [] ->
   64 <= v_hdrlen h <= zlen buf /\
-  v_hdrlen h = 56 + 8 * (zlen (v_blocks h) + 1) /\
+  v_hdrlen h = 56 + 8 * (nblocks (v_blocks h) + 1) /\
   known_fv_guid (v_guid h) = true /\ v_rev h = 2 /\ v_sig h = c09_fv_signature /\
-  v_length h = zlen buf /\ sum16 (sub 0 (v_hdrlen h) buf) = 0.
+  v_length h = zlen buf /\ sum16 (sub 0 (v_hdrlen h) buf) = 0 /\
+  (fx = true -> 0 < v_freespace h <= zlen buf ->
+   forallb (fun x => x =? fv_polarity (v_attrs h)) (sub (zlen buf - v_freespace h) (v_freespace h) buf) = true).
 Proof.
-  unfold validate_vol. unfold_c09.
+  unfold validate_vol_gen. unfold_c09.
   destruct (zlen buf <? 64) eqn:E1; [discriminate|].
   destruct (v_hdrlen h <? 64) eqn:E2; [discriminate|].
   destruct (zlen buf <? v_hdrlen h) eqn:E3; [discriminate|].
   rewrite slice_ok by lia. cbn [of_opt bind]. rewrite Z.sub_0_r.
-  intros H; apply Ok_inj in H.
-  apply app_eq_nil in H as [H1 H]. apply app_eq_nil in H as [H2 H].
-  apply app_eq_nil in H as [H3 H]. apply app_eq_nil in H as [H4 H].
-  apply app_eq_nil in H as [H5 H6].
-  apply if_nil_true in H1, H2, H3, H4, H5.
-  destruct (negb (Z.even (zlen (sub 0 (v_hdrlen h) buf)))); [discriminate|].
-  apply if_nil_true in H6.
-  repeat split; try lia; try assumption.
+  destruct (fx && (0 <? v_freespace h) && (v_freespace h <=? zlen buf)) eqn:E4; cbn [bind].
+  - rewrite slice_ok by lia. cbn [of_opt bind].
+    replace (zlen buf - (zlen buf - v_freespace h)) with (v_freespace h) by lia.
+    intros H; apply Ok_inj in H.
+    apply app_eq_nil in H as [H1 H]. apply app_eq_nil in H as [H2 H].
+    apply app_eq_nil in H as [H3 H]. apply app_eq_nil in H as [H4 H].
+    apply app_eq_nil in H as [H5 H]. apply app_eq_nil in H as [H6 H7].
+    apply if_nil_true in H1, H2, H3, H4, H5.
+    destruct (negb (Z.even (zlen (sub 0 (v_hdrlen h) buf)))); [discriminate|].
+    apply if_nil_true in H6.
+    destruct (forallb _ _) eqn:EF in H7; [|discriminate].
+    repeat split; try lia; try assumption; try (intros _ _; exact EF).
+  - intros H; apply Ok_inj in H.
+    apply app_eq_nil in H as [H1 H]. apply app_eq_nil in H as [H2 H].
+    apply app_eq_nil in H as [H3 H]. apply app_eq_nil in H as [H4 H].
+    apply app_eq_nil in H as [H5 H]. apply app_eq_nil in H as [H6 _].
+    apply if_nil_true in H1, H2, H3, H4, H5.
+    destruct (negb (Z.even (zlen (sub 0 (v_hdrlen h) buf)))); [discriminate|].
+    apply if_nil_true in H6.
+    repeat split; try lia; try assumption; try (intros -> Hfs; cbn [andb] in E4; lia).
 Qed.
 
 (* what a clean file check says *)
@@ -502,7 +519,7 @@ Qed.
 Lemma reports_child_vol fx h buf kids f : In f kids -> reports_gen fx f -> reports_gen fx (NVol h buf kids).
 Proof.
   intros Hin Hr. unfold reports_gen. rewrite validate_gen_vol.
-  destruct (validate_vol_total h buf) as [a ->].
+  destruct (validate_vol_total fx h buf) as [a ->].
   destruct (validate_list_reports fx kids f Hin Hr) as (l & -> & Hne). cbn [bind].
   eexists; split; [reflexivity|]. intros E. apply app_eq_nil in E as [_ E]. auto.
 Qed.
@@ -522,7 +539,7 @@ Proof.
   eexists; split; [reflexivity|]. intros E. apply app_eq_nil in E as [_ E]. auto.
 Qed.
 
-Lemma reports_vol_self fx h buf kids l : validate_vol h buf = Ok l -> l <> [] ->
+Lemma reports_vol_self fx h buf kids l : validate_vol_gen fx h buf = Ok l -> l <> [] ->
   reports_gen fx (NVol h buf kids).
 Proof.
   intros Hv Hne. unfold reports_gen. rewrite validate_gen_vol, Hv.
@@ -549,9 +566,9 @@ Proof.
 Qed.
 
 Lemma validate_vol_node_clean fx h buf kids : validate_gen fx (NVol h buf kids) = Ok [] ->
-  validate_vol h buf = Ok [] /\ Forall (fun n => validate_gen fx n = Ok []) kids.
+  validate_vol_gen fx h buf = Ok [] /\ Forall (fun n => validate_gen fx n = Ok []) kids.
 Proof.
-  rewrite validate_gen_vol. destruct (validate_vol_total h buf) as [a ->].
+  rewrite validate_gen_vol. destruct (validate_vol_total fx h buf) as [a ->].
   destruct (validate_list_total' fx kids) as [r Hr]. rewrite Hr. cbn [bind].
   intros E; apply Ok_inj in E. apply app_eq_nil in E as [-> ->]. split; [reflexivity|].
   apply validate_list_clean. exact Hr.
@@ -643,6 +660,20 @@ Proof.
   eapply sub_prefix; [exact HE| |]; lia.
 Qed.
 
+Lemma nblocks_nonneg l : 0 <= nblocks l.
+Proof. induction l as [|[c s] l IH]; cbn [nblocks]; [lia|]. destruct ((c =? 0) && (s =? 0)); lia. Qed.
+
+(* the parser stops at the first zero entry, so a parsed block map has none *)
+Lemma parse_blocks_nblocks fuel : forall b l, parse_blocks fuel b = Ok l -> nblocks l = zlen l.
+Proof.
+  induction fuel as [|fuel IH]; intros b l; cbn [parse_blocks]; [discriminate|].
+  destruct (zlen b <? 8); [discriminate|].
+  destruct ((rd 0 4 b =? 0) && (rd 4 4 b =? 0)) eqn:ET.
+  - intros H; apply Ok_inj in H. subst l. reflexivity.
+  - destruct (parse_blocks fuel (zskipn 8 b)) as [l0| | |] eqn:R; cbn [bind]; try discriminate.
+    intros H; apply Ok_inj in H. subst l. cbn [nblocks]. rewrite ET, zlen_cons, (IH _ _ R). reflexivity.
+Qed.
+
 Lemma sub0_sub0 (b : bytes) H L : 0 <= H <= L -> sub 0 H (sub 0 L b) = sub 0 H b.
 Proof.
   intros HL. unfold sub at 2. change (zskipn 0 b) with b. apply sub_zfirstn; lia.
@@ -663,13 +694,13 @@ Proof.
   injection Hn as -> -> ->.
   destruct (fv_body_inv _ _ _ _ _ _ _ HP') as (blocks' & pol1' & kids' & fs' & -> & HB' & _ & L0' & L1' & _).
   cbn [fst].
-  destruct (validate_vol_total (fv_hdr b' fvoff' res' blocks' fs') (sub 0 (rd 32 8 b') b')) as [l Hl].
+  destruct (validate_vol_total true (fv_hdr b' fvoff' res' blocks' fs') (sub 0 (rd 32 8 b') b')) as [l Hl].
   destruct l as [|e l]; [|eapply reports_vol_self; [exact Hl|discriminate]].
   exfalso.
-  apply validate_vol_clean in HV. apply validate_vol_clean in Hl.
+  apply (validate_vol_clean true) in HV. apply validate_vol_clean in Hl.
   cbn [fv_hdr v_hdrlen v_blocks v_length] in HV, Hl, Hi.
-  destruct HV as (V1 & V2 & _ & _ & _ & V6 & V7).
-  destruct Hl as (W1 & W2 & _ & _ & _ & W6 & W7).
+  destruct HV as (V1 & V2 & _ & _ & _ & V6 & V7 & _).
+  destruct Hl as (W1 & W2 & _ & _ & _ & W6 & W7 & _).
   rewrite zlen_sub0 in V1, V6 by lia. rewrite zlen_sub0 in W1, W6 by lia.
   pose proof (single_change_range _ _ _ HS) as Ri.
   pose proof (single_change_len _ _ _ HS) as Len.
@@ -1012,6 +1043,163 @@ Proof.
   eapply mod256_cancel2; [apply sum8_range|apply sum8_range|exact C5|exact D5].
 Qed.
 
+Lemma zlen_0_inv {A} (l : list A) : zlen l = 0 -> l = [].
+Proof. destruct l; [reflexivity|]. rewrite zlen_cons. pose proof (zlen_nonneg l). lia. Qed.
+Lemma zlen_1_inv {A} (l : list A) : zlen l = 1 -> exists a, l = [a].
+Proof.
+  destruct l as [|a l]; [discriminate|]. rewrite zlen_cons. intros H.
+  rewrite (zlen_0_inv l) by lia. eauto.
+Qed.
+Lemma zlen_2_inv {A} (l : list A) : zlen l = 2 -> exists a b, l = [a; b].
+Proof.
+  destruct l as [|a l]; [discriminate|]. rewrite zlen_cons. intros H.
+  destruct (zlen_1_inv l ltac:(lia)) as [b ->]. eauto.
+Qed.
+
+(* when does a single header byte turn a clean file header into the free-space marker: exactly
+   when a size byte is raised to FF, the other two size bytes already are FF, the file is not
+   large (so it is at least 0xFFFF bytes long) and its body starts with eight FF bytes *)
+Lemma free_marker_class nvar rs pol fb fb' j h fbuf kids pol' :
+  file_body nvar rs pol fb = Ok (Some (NFile h fbuf kids), pol') ->
+  validate_file h fbuf = Ok [] -> bytes_ok fb = true -> single_change fb j fb' -> 0 <= j < 24 ->
+  becomes_free_marker fb' ->
+  20 <= j < 23 /\ attr_large (f_attr h) = false /\ f_size3 h <> 16777215 /\
+  rd 20 3 fb' = 16777215 /\ rd 24 8 fb = U64 - 1 /\ 65535 <= f_ext h.
+Proof.
+  intros HP HV Hok HS Hj (M1 & M2 & M3).
+  destruct (file_body_inv _ _ _ _ _ HP) as (L24 & [[_ K]|(FM & L32 & Lext & nv & kids0 & pol0 & K)]);
+    [discriminate|].
+  injection K as -> -> -> ->.
+  apply validate_file_clean in HV. destruct HV as (C1 & C2 & C3 & C4 & _).
+  unfold file_hs in C1. cbn [file_hdr_of file_hdr_gen f_attr f_size3 f_ext] in *.
+  pose proof (single_change_len _ _ _ HS) as Len.
+  assert (E8 : rd 24 8 fb' = rd 24 8 fb) by (eapply single_change_rd_same; [exact HS|lia|right; lia]).
+  rewrite E8 in M3.
+  assert (N3 : rd 20 3 fb <> 16777215).
+  { intros E. unfold is_free_marker in FM. rewrite E in FM. cbn [Z.eqb Pos.eqb andb] in FM.
+    specialize (L32 E). replace (zlen fb <? 32) with false in FM by lia. lia. }
+  assert (J : 20 <= j < 23).
+  { destruct (Z_lt_ge_dec j 20) as [Hlo|Hge]; [|destruct (Z_lt_ge_dec j 23) as [?|Hhi]; [lia|]].
+    - exfalso. apply N3. rewrite <- M1. symmetry. eapply single_change_rd_same; [exact HS|lia|right; lia].
+    - exfalso. apply N3. rewrite <- M1. symmetry. eapply single_change_rd_same; [exact HS|lia|left; lia]. }
+  assert (NL : attr_large (rd 19 1 fb) = false).
+  { destruct (attr_large (rd 19 1 fb)) eqn:E; [|reflexivity]. exfalso. apply N3. apply C3. reflexivity. }
+  split; [exact J|]. split; [exact NL|]. split; [exact N3|]. split; [exact M1|]. split; [exact M3|].
+  unfold file_ext_of in *. replace (rd 20 3 fb =? 16777215) with false in * by lia.
+  destruct (single_change_sub fb j fb' 20 3 HS ltac:(lia) ltac:(lia)) as (p & x & y & s & Eb & Eb' & Lp & Hne & Hx & Hy).
+  assert (OK3 : bytes_ok (p ++ x :: s) = true) by (rewrite <- Eb; apply bytes_ok_sub; exact Hok).
+  unfold rd in M1 |- *. change (Z.of_nat 3) with 3 in *. rewrite Eb' in M1. rewrite Eb.
+  assert (L3 : zlen (p ++ x :: s) = 3) by (rewrite <- Eb; apply zlen_sub; lia).
+  rewrite zlen_app, zlen_cons in L3.
+  rewrite bytes_ok_app, bytes_ok_cons in OK3.
+  apply andb_true_iff in OK3 as [OKp OKs]. apply andb_true_iff in OKs as [_ OKs].
+  destruct (Z.eq_dec j 20) as [J20|J20]; [|destruct (Z.eq_dec j 21) as [J21|J21]].
+  - assert (p = []) by (apply zlen_0_inv; lia). subst p.
+    destruct (zlen_2_inv s ltac:(lia)) as (s0 & s1 & ->).
+    cbn [bytes_ok forallb] in OKs. rewrite !andb_true_iff, !byte_ok_iff in OKs.
+    cbn [app le_dec] in *. lia.
+  - destruct (zlen_1_inv p ltac:(lia)) as (p0 & ->). destruct (zlen_1_inv s ltac:(lia)) as (s0 & ->).
+    cbn [bytes_ok forallb] in OKs, OKp. rewrite !andb_true_iff, !byte_ok_iff in OKs, OKp.
+    cbn [app le_dec] in *. lia.
+  - destruct (zlen_2_inv p ltac:(lia)) as (p0 & p1 & ->).
+    assert (s = []) by (apply zlen_0_inv; lia). subst s.
+    cbn [bytes_ok forallb] in OKp. rewrite !andb_true_iff, !byte_ok_iff in OKp.
+    cbn [app le_dec] in *. lia.
+Qed.
+
+(* a changed byte of the extended size cannot produce FFFFFFFFFFFFFFFF unless the size was huge *)
+Lemma ext_marker_impossible fb fb' j : single_change fb j fb' -> 24 <= j < 32 -> bytes_ok fb = true ->
+  32 <= zlen fb -> rd 24 8 fb' = U64 - 1 -> 2 ^ 56 - 1 <= rd 24 8 fb.
+Proof.
+  intros HS Hj Hok L32 M. unfold rd in *. change (Z.of_nat 8) with 8 in *.
+  destruct (single_change_sub fb j fb' 24 8 HS ltac:(lia) ltac:(lia)) as (p & x & y & s & Eb & Eb' & Lp & Hne & Hx & Hy).
+  assert (OK8 : bytes_ok (p ++ x :: s) = true) by (rewrite <- Eb; apply bytes_ok_sub; exact Hok).
+  rewrite Eb' in M. rewrite Eb. rewrite le_dec_app in *. cbn [le_dec] in *.
+  rewrite bytes_ok_app, bytes_ok_cons in OK8.
+  apply andb_true_iff in OK8 as [OKp OKs]. apply andb_true_iff in OKs as [_ OKs].
+  pose proof (le_dec_bound p OKp) as Bp. pose proof (le_dec_bound s OKs) as Bs.
+  pose proof (zlen_nonneg p) as Np.
+  assert (P7 : 0 < 256 ^ zlen p <= 256 ^ 7).
+  { split; [apply Z.pow_pos_nonneg; lia|apply Z.pow_le_mono_r; lia]. }
+  unfold U64 in M. change (2 ^ 64) with 18446744073709551616 in M.
+  change (256 ^ 7) with 72057594037927936 in P7. change (2 ^ 56) with 72057594037927936.
+  nia.
+Qed.
+
+(* the marker a changed header byte can produce is the long form *)
+Lemma marker_is_long nvar rs pol pol2 fb fb' j h fbuf kids pol' :
+  file_body nvar rs pol fb = Ok (Some (NFile h fbuf kids), pol') ->
+  validate_file h fbuf = Ok [] ->
+  single_change fb j fb' -> prot_hdr (attr_large (f_attr h)) j ->
+  is_free_marker pol2 fb' = true -> becomes_free_marker fb'.
+Proof.
+  intros HP HV HS Hj FM'.
+  destruct (file_body_inv _ _ _ _ _ HP) as (L24 & [[_ K]|(FM & L32 & Lext & nv & kids0 & pol0 & K)]);
+    [discriminate|].
+  injection K as -> -> -> ->.
+  pose proof (single_change_len _ _ _ HS) as Len.
+  pose proof HV as HC. apply validate_file_clean in HC. destruct HC as (C1 & C2 & C3 & _).
+  unfold file_hs in C1. cbn [file_hdr_of file_hdr_gen f_attr f_size3 f_ext] in C1, C2, C3, Hj.
+  assert (Lext0 : 24 <= file_ext_of fb) by (destruct (attr_large (rd 19 1 fb)); lia).
+  rewrite zlen_sub0 in C1 by lia.
+  unfold is_free_marker in FM'. apply andb_true_iff in FM' as [Es FM']. apply Z.eqb_eq in Es.
+  destruct (zlen fb' <? 32) eqn:E32.
+  - exfalso.
+    assert (Hl : attr_large (rd 19 1 fb) = false) by (destruct (attr_large (rd 19 1 fb)); [lia|reflexivity]).
+    rewrite Hl in Hj.
+    assert (J23 : 0 <= j < 23).
+    { pose proof (single_change_range _ _ _ HS). destruct Hj as [?|[?|[? _]]]; [lia|lia|discriminate]. }
+    eapply (short_marker_impossible fb fb' j pol2 nv); eauto; lia.
+  - split; [exact Es|]. split; [lia|]. apply Z.eqb_eq. exact FM'.
+Qed.
+
+Lemma becomes_is_marker p fb : becomes_free_marker fb -> is_free_marker p fb = true.
+Proof.
+  intros (M1 & M2 & M3). unfold is_free_marker. rewrite M1, M3.
+  replace (zlen fb <? 32) with false by lia. reflexivity.
+Qed.
+
+(* C09_file_header_detects, local form for the repaired validate: the altered file is reported, or
+   it has become the start of the free space — which then is not erased *)
+Lemma file_header_detects_local2 nvar rs nvar2 rs2 pol pol2 fb fb' j h fbuf kids pol' :
+  file_body nvar rs pol fb = Ok (Some (NFile h fbuf kids), pol') ->
+  validate_file h fbuf = Ok [] -> bytes_ok fb = true -> zlen fb < 2 ^ 55 ->
+  single_change fb j fb' -> prot_hdr (attr_large (f_attr h)) j ->
+  forall r, file_body nvar2 rs2 pol2 fb' = Ok r ->
+  (exists f', fst r = Some f' /\ reports f') \/
+  (fst r = None /\ forall P, P = 0 \/ P = 255 -> forallb (fun x => x =? P) fb' = false).
+Proof.
+  intros HP HV Hok Hsmall HS Hj r HP'.
+  destruct (file_body_inv _ _ _ _ _ HP') as (L24' & [[FM' ->]|(FM' & _)]).
+  - right. split; [reflexivity|].
+    pose proof (marker_is_long _ _ _ _ _ _ _ _ _ _ _ HP HV HS Hj FM') as HM.
+    assert (J24 : 0 <= j < 24).
+    { pose proof (single_change_range _ _ _ HS) as Rj. pose proof (single_change_len _ _ _ HS) as Len.
+      destruct Hj as [?|[?|[Hlg Hj]]]; [lia|lia|]. exfalso.
+      destruct HM as (M1 & M2 & M3).
+      pose proof (ext_marker_impossible fb fb' j HS Hj Hok ltac:(lia) M3) as Hbig.
+      destruct (file_body_inv _ _ _ _ _ HP) as (_ & [[_ K]|(_ & _ & Lext & nv & kids0 & pol0 & K)]); [discriminate|].
+      injection K as -> -> -> ->. cbn [file_hdr_of file_hdr_gen f_attr] in Hlg.
+      apply validate_file_clean in HV. destruct HV as (_ & _ & C3 & _).
+      cbn [file_hdr_of file_hdr_gen f_attr f_size3] in C3. apply C3 in Hlg.
+      unfold file_ext_of in Lext. rewrite Hlg in Lext. cbn [Z.eqb Pos.eqb] in Lext.
+      change (2 ^ 56) with 72057594037927936 in Hbig. change (2 ^ 55) with 36028797018963968 in Hsmall. lia. }
+    destruct (free_marker_class _ _ _ _ _ _ _ _ _ _ HP HV Hok HS J24 HM) as (J & NL & N3 & M1 & _).
+    destruct (file_body_inv _ _ _ _ _ HP) as (_ & [[_ K]|(_ & _ & _ & nv & kids0 & pol0 & K)]); [discriminate|].
+    injection K as -> -> -> ->. cbn [file_hdr_of file_hdr_gen f_attr] in NL.
+    intros P HPv. destruct (forallb (fun x => x =? P) fb') eqn:EA; [exfalso|reflexivity].
+    destruct HPv as [-> | ->].
+    + assert (E3 : rd 20 3 fb' = 0 + 256 * (0 + 256 * (0 + 0))).
+      { unfold rd. change (Z.of_nat 3) with 3. rewrite (all_eq_sub 0 fb' 20 3 EA) by lia. reflexivity. }
+      lia.
+    + assert (E1 : rd 19 1 fb' = 255 + 0).
+      { unfold rd. change (Z.of_nat 1) with 1. rewrite (all_eq_sub 255 fb' 19 1 EA) by lia. reflexivity. }
+      assert (EA' : rd 19 1 fb' = rd 19 1 fb) by (eapply single_change_rd_same; [exact HS|lia|left; lia]).
+      rewrite <- EA', E1 in NL. change (255 + 0) with 255 in NL. rewrite attr_large_255 in NL. discriminate.
+  - left. eapply (file_header_detects_local _ _ _ _ _ _ _ _ j _ _ _ _ HP HV HS Hj); [|exact HP'].
+    intros HM. rewrite (becomes_is_marker pol2 fb' HM) in FM'. discriminate.
+Qed.
+
 (* a change of the body-checksum byte or of a body byte leaves the parsed header otherwise intact *)
 Lemma nonhdr_change_inv nvar rs nvar2 rs2 pol pol2 fb fb' j nv kids pol' r :
   file_body nvar rs pol fb =
@@ -1199,15 +1387,15 @@ Proof.
   - intros Hat. eapply IH; [exact ER| |exact Hat]. intros; apply Hpos; right; auto.
 Qed.
 
-Lemma files_loop_detect nvar rs n : forall data data' len pol off files pol' fs k f o i,
+Lemma files_loop_detect nvar rs (Q : Prop) n : forall data data' len pol off files pol' fs k f o i,
   files_loop (file_body nvar rs) n data len pol off = Ok (files, pol', fs) ->
   Forall file_clean files ->
   file_at off files k = Some (f, o) ->
   single_change data i data' -> o <= i -> 0 <= off -> len <= zlen data ->
   (forall pol2 r, file_body nvar rs pol2 (sub o (len - o) data') = Ok r ->
-                  exists f', fst r = Some f' /\ reports f') ->
+                  (exists f', fst r = Some f' /\ reports f') \/ (fst r = None /\ Q)) ->
   forall r, files_loop (file_body nvar rs) n data' len pol off = Ok r ->
-  exists f', In f' (fst (fst r)) /\ reports f'.
+  (exists f', In f' (fst (fst r)) /\ reports f') \/ (snd r = (len - o) mod U64 /\ Q).
 Proof.
   induction n as [|n IH]; intros data data' len pol off files pol' fs k f o i; cbn [files_loop];
     [discriminate|].
@@ -1226,11 +1414,12 @@ Proof.
   - injection Hat as <- <-.
     destruct (file_body nvar rs pol (sub (align8 off) (len - align8 off) data')) as [[fo' pol1']| | |] eqn:EF';
       cbn [bind] in H'; try discriminate.
-    destruct (Hloc _ _ EF') as (f' & Hf' & Hr'). cbn [fst] in Hf'. subst fo'.
-    destruct (file_ext f' =? 0); [discriminate|].
-    destruct (files_loop (file_body nvar rs) n data' len pol1' (align8 off + file_ext f'))
-      as [[[r' p'] fs']| | |]; cbn [bind] in H'; try discriminate.
-    apply Ok_inj in H'. subst r. cbn [fst]. exists f'. split; [left; reflexivity|exact Hr'].
+    destruct (Hloc _ _ EF') as [(f' & Hf' & Hr')|[Hf' HQ]]; cbn [fst] in Hf'; subst fo'.
+    + destruct (file_ext f' =? 0); [discriminate|].
+      destruct (files_loop (file_body nvar rs) n data' len pol1' (align8 off + file_ext f'))
+        as [[[r' p'] fs']| | |]; cbn [bind] in H'; try discriminate.
+      apply Ok_inj in H'. subst r. cbn [fst]. left. exists f'. split; [left; reflexivity|exact Hr'].
+    + apply Ok_inj in H'. subst r. cbn [snd]. right. split; [reflexivity|exact HQ].
   - assert (Hpos : forall g, In g r0 -> 0 <= file_ext g).
     { intros g Hg. rewrite Forall_forall in Hcr. pose proof (file_clean_ext g (Hcr g Hg)). lia. }
     pose proof (file_at_ge r0 _ _ _ _ Hpos Hat) as Hge.
@@ -1255,9 +1444,10 @@ Proof.
     rewrite EF'' in H'. cbn [bind] in H'. rewrite E0 in H'.
     destruct (files_loop (file_body nvar rs) n data' len pol1 (align8 off + file_ext f0))
       as [[[r' p'] fs']| | |] eqn:ER'; cbn [bind] in H'; try discriminate.
-    apply Ok_inj in H'. subst r. cbn [fst].
-    destruct (IH _ _ _ _ _ _ _ _ _ _ _ _ ER Hcr Hat HS Hoi ltac:(lia) Hlen Hloc _ ER') as (f' & Hin & Hr').
-    cbn [fst] in Hin. exists f'. split; [right; exact Hin|exact Hr'].
+    apply Ok_inj in H'. subst r. cbn [fst snd].
+    destruct (IH _ _ _ _ _ _ _ _ _ _ _ _ ER Hcr Hat HS Hoi ltac:(lia) Hlen Hloc _ ER') as [(f' & Hin & Hr')|[Hs HQ]].
+    + cbn [fst] in Hin. left. exists f'. split; [right; exact Hin|exact Hr'].
+    + cbn [snd] in Hs. right. split; [exact Hs|exact HQ].
 Qed.
 
 (* the bytes the volume-header part of the parser reads: the fixed header and block map
@@ -1332,6 +1522,7 @@ Proof.
   injection Hn as -> -> ->.
   apply validate_vol_node_clean in HV. destruct HV as [HV HK].
   apply validate_vol_clean in HV. cbn [fv_hdr v_hdrlen v_blocks] in HV. destruct HV as (_ & V2 & _).
+  rewrite (parse_blocks_nblocks _ _ _ HB) in V2.
   exists blocks, pol1, fs. repeat (split; [first [reflexivity|assumption|lia]|]).
   split.
   - destruct Hk as [[_ ->]|[_ HL]]; [constructor|].
@@ -1341,7 +1532,11 @@ Proof.
   - intros Hne. destruct Hk as [[_ ->]|[Hs HL]]; [congruence|]. split; assumption.
 Qed.
 
-(* lifting a local detection result to the volume *)
+(* lifting a local detection result to the volume: either a file of the new tree is reported, or
+   the volume's free space now starts at the altered file and is not erased *)
+Lemma fv_polarity_cases a : fv_polarity a = 0 \/ fv_polarity a = 255.
+Proof. unfold fv_polarity. destruct (Z.land a 2048 =? 0); auto. Qed.
+
 Lemma fv_file_detect nvar rs pol b b' fvoff res h buf kids pol' k f o i :
   fv_body (file_body nvar rs) pol b fvoff res = Ok (NVol h buf kids, pol') ->
   validate (NVol h buf kids) = Ok [] ->
@@ -1349,7 +1544,9 @@ Lemma fv_file_detect nvar rs pol b b' fvoff res h buf kids pol' k f o i :
   file_at (v_dataoff h) kids k = Some (f, o) ->
   single_change b i b' -> o <= i ->
   (forall pol2 r, file_body nvar rs pol2 (sub o (v_length h - o) b') = Ok r ->
-                  exists f', fst r = Some f' /\ reports f') ->
+     (exists f', fst r = Some f' /\ reports f') \/
+     (fst r = None /\ forall P, P = 0 \/ P = 255 ->
+                       forallb (fun x => x =? P) (sub o (v_length h - o) b') = false)) ->
   forall r, fv_body (file_body nvar rs) pol b' fvoff res = Ok r -> reports (fst r).
 Proof.
   intros HP HV Hok Hext Hat HS Hoi Hloc [n' pol''] HP'.
@@ -1361,20 +1558,35 @@ Proof.
   assert (Hpos : forall g, In g kids -> 0 <= file_ext g).
   { intros g Hg. rewrite Forall_forall in Hcl. pose proof (file_clean_ext g (Hcl g Hg)). lia. }
   pose proof (file_at_ge kids _ _ _ _ Hpos Hat) as Hge.
+  destruct (files_loop_at _ _ _ _ _ _ _ _ _ _ _ _ HL Hpos Hat) as (_ & _ & _ & Ho24).
   assert (Hd0 : 0 <= fv_doff b).
   { assert (0 <= rd 48 2 b) by (apply rd_nonneg; exact Hok).
     unfold fv_hdr_extent in Hext. lia. }
   assert (Hx : fv_hdr_extent b <= i) by lia.
   assert (Hblk : 56 + 8 * (zlen blocks + 1) <= i) by (unfold fv_hdr_extent in Hx; lia).
   destruct (fv_header_same b b' i blocks HS Hok Hx Hblk HB) as (E16 & E32 & E44 & ED & HB').
-  destruct (fv_body_inv _ _ _ _ _ _ _ HP') as (blocks' & pol1' & kids' & fs' & -> & HB'' & HPol' & _ & _ & Hk').
+  destruct (fv_body_inv _ _ _ _ _ _ _ HP') as (blocks' & pol1' & kids' & fs' & -> & HB'' & HPol' & _ & L1' & Hk').
   rewrite E16, E32, E44, ED in *.
   assert (pol1' = pol1) by congruence. subst pol1'.
   destruct Hk' as [[Hs' _]|[_ HL']]; [congruence|].
   pose proof (single_change_len _ _ _ HS) as Len. rewrite Len in HL'.
-  destruct (files_loop_detect nvar rs _ b b' _ _ _ _ _ _ k f o i HL Hcl Hat HS Hoi Hd0 ltac:(lia) Hloc _ HL')
-    as (f' & Hin & Hr').
-  cbn [fst] in *. eapply reports_child_vol; eauto.
+  destruct (files_loop_detect nvar rs _ _ b b' _ _ _ _ _ _ k f o i HL Hcl Hat HS Hoi Hd0 ltac:(lia) Hloc _ HL')
+    as [(f' & Hin & Hr')|[Hfs HQ]]; cbn [fst snd] in *.
+  - eapply reports_child_vol; eauto.
+  - (* the free space of the new tree is [o, Length) and is not erased *)
+    assert (LU : rd 32 8 b < U64).
+    { unfold rd. pose proof (le_dec_bound (sub 32 (Z.of_nat 8) b) (bytes_ok_sub _ _ _ Hok)) as B.
+      rewrite zlen_sub in B by lia. unfold U64. change (256 ^ Z.of_nat 8) with (2 ^ 64) in B. lia. }
+    rewrite Z.mod_small in Hfs by lia. subst fs'.
+    set (hv := fv_hdr b' fvoff res blocks' (rd 32 8 b - o)).
+    destruct (validate_vol_total true hv (sub 0 (rd 32 8 b) b')) as [l Hl].
+    destruct l as [|e l]; [|eapply reports_vol_self; [exact Hl|discriminate]].
+    exfalso. apply validate_vol_clean in Hl. destruct Hl as (_ & _ & _ & _ & _ & _ & _ & HF).
+    rewrite zlen_sub0 in HF by lia. subst hv. cbn [fv_hdr v_freespace v_attrs] in HF.
+    specialize (HF eq_refl ltac:(lia)).
+    replace (rd 32 8 b - (rd 32 8 b - o)) with o in HF by lia.
+    rewrite sub_sub0 in HF by lia.
+    rewrite (HQ _ (fv_polarity_cases (rd 44 4 b'))) in HF. discriminate.
 Qed.
 
 (* ---- E.4 the three file theorems, for a file directly inside a parsed volume ---- *)
@@ -1421,11 +1633,11 @@ Qed.
 
 (* C09_file_header_detects *)
 Lemma file_header_detects j :
+  zlen b < 2 ^ 55 ->
   prot_hdr (attr_large (f_attr fh)) j -> single_change b (o + j) b' ->
-  ~ becomes_free_marker (sub o (v_length h - o) b') ->
   forall r, fv_body (file_body nvar rs) pol b' fvoff res = Ok r -> reports (fst r).
 Proof.
-  intros Hj HS Hfm.
+  intros Hsmall Hj HS.
   destruct file_in_volume_facts as (Hc & Ho0 & Hoe & Hlen & polk & polk' & HF).
   assert (J : 0 <= j < f_ext fh).
   { apply validate_file_clean in Hc. destruct Hc as (C1 & C2 & _). unfold file_hs in C1.
@@ -1433,8 +1645,10 @@ Proof.
     rewrite E in C1. lia. }
   eapply (fv_file_detect _ _ _ _ _ _ _ _ _ _ _ _ _ _ (o + j) HP HV Hok Hext Hat HS); [lia|].
   intros pol2 r HF'.
-  eapply (file_header_detects_local _ _ _ _ _ _ _ _ j _ _ _ _ HF Hc); [|exact Hj|exact Hfm|exact HF'].
-  replace j with (o + j - o) at 1 by lia. apply single_change_sub; [exact HS|lia|lia].
+  eapply (file_header_detects_local2 _ _ _ _ _ _ _ _ j _ _ _ _ HF Hc); [| | |exact Hj|exact HF'].
+  - apply bytes_ok_sub. exact Hok.
+  - rewrite zlen_sub_tail by lia. pose proof (zlen_nonneg b). lia.
+  - replace j with (o + j - o) at 1 by lia. apply single_change_sub; [exact HS|lia|lia].
 Qed.
 
 (* C09_body_detects *)
@@ -1446,7 +1660,7 @@ Proof.
   destruct file_in_volume_facts as (Hc & Ho0 & Hoe & Hlen & polk & polk' & HF).
   assert (J : 0 <= j) by (unfold file_hs in Hj; destruct (attr_large _); lia).
   eapply (fv_file_detect _ _ _ _ _ _ _ _ _ _ _ _ _ _ (o + j) HP HV Hok Hext Hat HS); [lia|].
-  intros pol2 r HF'.
+  intros pol2 r HF'. left.
   eapply (file_body_detects_local _ _ _ _ _ _ _ _ j _ _ _ _ HF Hc Hck); [|exact Hj|exact HF'].
   replace j with (o + j - o) at 1 by lia. apply single_change_sub; [exact HS|lia|lia].
 Qed.
@@ -1462,7 +1676,7 @@ Proof.
   { apply validate_file_clean in Hc. destruct Hc as (C1 & C2 & _). unfold file_hs in C1.
     destruct (attr_large _); lia. }
   eapply (fv_file_detect _ _ _ _ _ _ _ _ _ _ _ _ _ _ (o + 17) HP HV Hok Hext Hat HS); [lia|].
-  intros pol2 r HF'.
+  intros pol2 r HF'. left.
   eapply (file_bodysum_detects_local _ _ _ _ _ _ _ _ _ _ _ _ HF Hc); [| |exact HF'].
   - apply bytes_ok_sub. exact Hok.
   - replace 17 with (o + 17 - o) at 1 by lia. apply single_change_sub; [exact HS|lia|lia].
@@ -1719,6 +1933,52 @@ Proof.
   pose proof (land_le_r y k ltac:(lia)). subst y k. lia.
 Qed.
 
+Lemma sub_splice_after off d (b : bytes) a l : 0 <= off -> off + zlen d <= zlen b -> off + zlen d <= a ->
+  sub a l (splice off d b) = sub a l b.
+Proof.
+  intros H0 H1 Ha. pose proof (zlen_nonneg d) as Nd. unfold splice.
+  rewrite (sub_app_skip (zfirstn off b) _ a l off) by (try apply zlen_zfirstn; lia).
+  rewrite (sub_app_skip d _ (a - off) l (zlen d)) by lia.
+  unfold sub. rewrite zskipn_zskipn by lia. do 2 f_equal. lia.
+Qed.
+
+Lemma insert_file_len pol fvbuf aligned fb b : insert_file pol fvbuf aligned fb = Ok b -> zlen fvbuf <= zlen b.
+Proof.
+  unfold insert_file. destruct (aligned <? zlen fvbuf); [discriminate|].
+  destruct (zlen fb =? 0); [discriminate|]. intros H; apply Ok_inj in H. subst b.
+  rewrite !zlen_app. pose proof (zlen_nonneg (zrepeat pol (aligned - zlen fvbuf))). pose proof (zlen_nonneg fb). lia.
+Qed.
+
+Lemma place_files_len pol limit files : forall fvbuf off b,
+  place_files pol limit fvbuf off files = Ok b -> zlen fvbuf <= zlen b.
+Proof.
+  induction files as [|f files IH]; intros fvbuf off b; cbn [place_files].
+  - intros H; apply Ok_inj in H. subst b. lia.
+  - cbv zeta. destruct (zlen (node_buf f) =? 0); [discriminate|].
+    match goal with |- context [if ?c then Err E_NOSPACE else _] => destruct c end; [discriminate|].
+    match goal with |- context [bind ?x _] => destruct x as [[fvbuf1 a1]| | |] eqn:ES end; cbn [bind]; try discriminate.
+    destruct (insert_file pol fvbuf1 a1 (node_buf f)) as [b2| | |] eqn:EI; cbn [bind]; try discriminate.
+    intros H. apply IH in H. apply insert_file_len in EI.
+    assert (zlen fvbuf <= zlen fvbuf1); [|lia].
+    revert ES. match goal with |- context [if ?c then _ else _] => destruct c end.
+    + intros E; apply Ok_inj in E. apply pair_equal_spec in E. destruct E as [<- _]. lia.
+    + destruct (create_pad_file pol _) as [pf| | |]; cbn [bind]; try discriminate.
+      destruct (insert_file pol fvbuf _ pf) as [bb| | |] eqn:EI2; cbn [bind]; try discriminate.
+      intros E; apply Ok_inj in E. apply pair_equal_spec in E. destruct E as [<- _].
+      apply insert_file_len in EI2. exact EI2.
+Qed.
+
+Lemma forallb_repeatz v n : forallb (fun x => x =? v) (repeatz v n) = true.
+Proof. induction n as [|n IH]; [reflexivity|]. cbn [repeatz forallb]. rewrite Z.eqb_refl. exact IH. Qed.
+
+Lemma zlen_zrepeat v n : 0 <= n -> zlen (zrepeat v n) = n.
+Proof.
+  intros Hn. unfold zrepeat.
+  assert (R : forall k, zlen (repeatz v k) = Z.of_nat k).
+  { induction k as [|k IHk]; [reflexivity|]. cbn [repeatz]. rewrite zlen_cons, IHk. lia. }
+  rewrite R. lia.
+Qed.
+
 Lemma asm_vol_inv pol ffs3 h buf files h' nb :
   asm_vol pol ffs3 h buf files = Ok (h', nb) -> files <> [] ->
   exists len blocks b5 newlen,
@@ -1733,14 +1993,20 @@ Lemma asm_vol_inv pol ffs3 h buf files h' nb :
     zlen b5 = (if newlen <? len then len else newlen) /\
     (v_resizable h = false -> newlen <= len) /\
     (newlen <= len \/ exists c0 s0 rest, v_blocks h = (c0, s0) :: rest /\ s0 <> 0 /\
-                                        len = align_go newlen s0).
+                                        len = align_go newlen s0) /\
+    v_hdrlen h <= newlen /\
+    (newlen < len -> forall a l, 60 <= a -> newlen <= a ->
+       sub a l b5 = sub (a - newlen) l (zrepeat pol (len - newlen))).
 Proof.
   intros H Hne. destruct files as [|f0 fs]; [congruence|]. unfold asm_vol in H. cbv zeta in H.
   destruct (v_length h <? zlen buf); [discriminate|].
   destruct (v_blocks h) as [|[c0 s0] rest] eqn:EBl; [discriminate|].
-  destruct (v_dataoff h <? v_hdrlen h); [discriminate|].
-  destruct (slice 0 (v_dataoff h) buf) as [hdr|]; cbn [of_opt bind] in H; [|discriminate].
-  destruct (place_files pol _ hdr (v_dataoff h) (f0 :: fs)) as [b1| | |]; cbn [bind] in H; try discriminate.
+  destruct (v_dataoff h <? v_hdrlen h) eqn:EDo; [discriminate|].
+  destruct (slice 0 (v_dataoff h) buf) as [hdr|] eqn:EHd; cbn [of_opt bind] in H; [|discriminate].
+  destruct (place_files pol _ hdr (v_dataoff h) (f0 :: fs)) as [b1| | |] eqn:EPl; cbn [bind] in H; try discriminate.
+  assert (LD : v_hdrlen h <= zlen b1).
+  { apply place_files_len in EPl. apply slice_some in EHd. destruct EHd as (S1 & S2 & ->).
+    rewrite zlen_sub in EPl by lia. lia. }
   destruct ((v_length h <? zlen b1) && negb (v_resizable h)) eqn:EG; [discriminate|].
   set (newlen := zlen b1) in *.
   assert (exists len blocks,
@@ -1777,7 +2043,16 @@ Proof.
   exists len, ((c, s) :: brest), b5, newlen.
   split; [reflexivity|]. split; [reflexivity|]. split; [lia|]. split; [lia|].
   split; [destruct (Z.even (v_hdrlen h)); [reflexivity|discriminate]|].
-  split; [exact Lb|]. split; [apply zlen_nonneg|]. split; [|split; [exact Lr|destruct Lg as [?|[? ?]]; [left; assumption|right; exists c0, s0, rest; auto]]].
+  split; [exact Lb|]. split; [apply zlen_nonneg|].
+  split; [|split; [exact Lr|split; [destruct Lg as [?|[? ?]]; [left; assumption|right; exists c0, s0, rest; auto]|split; [exact LD|]]]].
+  2: { intros Hlt a l Ha Hna.
+       subst b5. rewrite sub_splice_after by (rewrite ?le4; lia).
+       assert (E4 : sub a l b4 = sub a l b3).
+       { subst b4. destruct (ffs3 && bytes_eqb (v_guid h) FFS2); [|reflexivity].
+         apply sub_splice_after; [lia|change (zlen FFS3) with 16; lia|change (zlen FFS3) with 16; lia]. }
+       rewrite E4. subst b3. rewrite sub_splice_after by (rewrite ?le8; lia).
+       subst b2. replace (newlen <? len) with true by lia.
+       apply sub_app_skip; [reflexivity|lia]. }
   rewrite L5. subst b2. destruct (newlen <? len) eqn:EL; [|reflexivity].
   rewrite zlen_app. unfold zrepeat.
   assert (R : forall n, zlen (repeatz pol n) = Z.of_nat n).
@@ -1788,21 +2063,22 @@ Qed.
 (* C09_no_false_alarm, volumes *)
 Lemma asm_vol_clean pol ffs3 h buf files h' nb :
   asm_vol pol ffs3 h buf files = Ok (h', nb) -> files <> [] ->
+  pol = fv_polarity (v_attrs h) -> zlen nb < 2 ^ 63 ->
   v_hdrlen h = 56 + 8 * (zlen (v_blocks h) + 1) -> v_rev h = 2 -> v_sig h = c09_fv_signature ->
   known_fv_guid (v_guid h) = true ->
   zlen nb = v_length h' ->
   validate_vol h' nb = Ok [].
 Proof.
-  intros HA Hne HH HR HSg HG HLen.
-  destruct (asm_vol_inv _ _ _ _ _ _ _ HA Hne) as (len & blocks & b5 & newlen & -> & -> & L60 & LH & EV & LB & _ & L5 & _ & _).
+  intros HA Hne Hpol Hsm HH HR HSg HG HLen.
+  destruct (asm_vol_inv _ _ _ _ _ _ _ HA Hne) as (len & blocks & b5 & newlen & -> & -> & L60 & LH & EV & LB & N0 & L5 & _ & _ & LD & Ltail).
   cbn [v_length] in HLen.
   pose proof (zlen_nonneg (v_blocks h)) as Nb.
   set (b6 := splice 50 [0; 0] b5) in *.
   assert (L6 : zlen b6 = zlen b5) by (apply zlen_splice; change (zlen [0; 0]) with 2; lia).
   set (sum := (0 - sum16 (sub 0 (v_hdrlen h) b6)) mod 65536) in *.
   assert (L7 : zlen (splice 50 (le_enc 2 sum) b6) = zlen b5) by (rewrite zlen_splice; rewrite ?le2; lia).
-  unfold validate_vol. unfold_c09.
-  cbn [v_hdrlen v_blocks v_guid v_rev v_sig v_length].
+  unfold validate_vol, validate_vol_gen. unfold_c09.
+  cbn [v_hdrlen v_blocks v_guid v_rev v_sig v_length v_freespace v_attrs].
   rewrite L7 in *.
   replace (zlen b5 <? 64) with false by lia.
   replace (v_hdrlen h <? 64) with false by lia.
@@ -1824,7 +2100,35 @@ Proof.
   rewrite CK.
   assert (LS : zlen (sub 0 (v_hdrlen h) (splice 50 (le_enc 2 sum) b6)) = v_hdrlen h)
     by (apply zlen_sub0; lia).
-  rewrite LS, EV. reflexivity.
+  rewrite LS, EV. cbn [negb Z.eqb app].
+  (* the free space *)
+  set (FS := (len - align8 newlen) mod U64).
+  destruct (true && (0 <? FS) && (FS <=? len)) eqn:EF; cbn [bind]; [|reflexivity].
+  assert (A8 : newlen <= align8 newlen <= newlen + 7).
+  { pose proof (align8_ge newlen). unfold align8, align in *.
+    pose proof (Z.div_mod (newlen + 8 - 1) 8 ltac:(lia)). pose proof (Z.mod_pos_bound (newlen + 8 - 1) 8 ltac:(lia)). lia. }
+  assert (LenB : len = zlen b5) by lia.
+  assert (NL5 : newlen <= zlen b5) by (rewrite L5; destruct (newlen <? len) eqn:E5; lia).
+  assert (FSv : FS = len - align8 newlen /\ align8 newlen < len).
+  { subst FS. unfold U64 in *. change (2 ^ 64) with 18446744073709551616 in *. change (2 ^ 63) with 9223372036854775808 in Hsm.
+    destruct (Z_lt_ge_dec (align8 newlen) len) as [Hlt|Hge].
+    - rewrite Z.mod_small by lia. lia.
+    - exfalso. destruct (Z.eq_dec (align8 newlen) len) as [E|E].
+      + rewrite E, Z.sub_diag in EF. cbn in EF. discriminate.
+      + assert (M : (len - align8 newlen) mod 18446744073709551616 = len - align8 newlen + 18446744073709551616).
+        { symmetry. apply Z.mod_unique with (q := -1); [left|]; lia. }
+        rewrite M in EF. lia. }
+  destruct FSv as [FSv Alt].
+  assert (Nlt : newlen < len) by lia.
+  rewrite slice_ok by lia. cbn [of_opt bind].
+  replace (len - (len - FS)) with FS by lia.
+  replace (len - FS) with (align8 newlen) by lia.
+  subst b6. rewrite !sub_splice_after by (rewrite ?le2, ?zlen_splice; change (zlen [0; 0]) with 2; rewrite ?zlen_splice; change (zlen [0; 0]) with 2; lia).
+  rewrite (Ltail Nlt) by lia.
+  assert (AE : forallb (fun x => x =? fv_polarity (v_attrs h))
+                 (sub (align8 newlen - newlen) FS (zrepeat pol (len - newlen))) = true).
+  { rewrite Hpol. unfold sub, zfirstn, zskipn, zrepeat. apply forallb_firstn, forallb_skipn, forallb_repeatz. }
+  rewrite AE. reflexivity.
 Qed.
 
 Lemma asm_vol_len_fixed pol ffs3 h buf files h' nb :
@@ -1832,7 +2136,7 @@ Lemma asm_vol_len_fixed pol ffs3 h buf files h' nb :
   zlen nb = v_length h'.
 Proof.
   intros HA Hne Hr.
-  destruct (asm_vol_inv _ _ _ _ _ _ _ HA Hne) as (len & blocks & b5 & newlen & -> & -> & L60 & LH & EV & LB & _ & L5 & Lr & _).
+  destruct (asm_vol_inv _ _ _ _ _ _ _ HA Hne) as (len & blocks & b5 & newlen & -> & -> & L60 & LH & EV & LB & _ & L5 & Lr & _ & _ & _).
   cbn [v_length]. specialize (Lr Hr).
   set (b6 := splice 50 [0; 0] b5) in *.
   assert (L6 : zlen b6 = zlen b5) by (apply zlen_splice; change (zlen [0; 0]) with 2; lia).
@@ -1842,11 +2146,12 @@ Qed.
 
 Lemma no_false_alarm_volume pol ffs3 h buf files h' nb :
   asm_vol pol ffs3 h buf files = Ok (h', nb) -> files <> [] -> v_resizable h = false ->
+  pol = fv_polarity (v_attrs h) -> zlen nb < 2 ^ 63 ->
   v_hdrlen h = 56 + 8 * (zlen (v_blocks h) + 1) -> v_rev h = 2 -> v_sig h = c09_fv_signature ->
   known_fv_guid (v_guid h) = true ->
   validate_vol h' nb = Ok [].
 Proof.
-  intros HA Hne Hr HH HR HSg HG. eapply asm_vol_clean; eauto. eapply asm_vol_len_fixed; eauto.
+  intros HA Hne Hr Hpol Hsm HH HR HSg HG. eapply asm_vol_clean; eauto. eapply asm_vol_len_fixed; eauto.
 Qed.
 
 (* resizable (nested) volumes may grow to the next multiple of the block size *)
@@ -1856,7 +2161,7 @@ Lemma asm_vol_len_any pol ffs3 h buf files h' nb :
   zlen nb = v_length h'.
 Proof.
   intros HA Hne Hs Hsmall.
-  destruct (asm_vol_inv _ _ _ _ _ _ _ HA Hne) as (len & blocks & b5 & newlen & -> & -> & L60 & LH & EV & LB & N0 & L5 & _ & Lg).
+  destruct (asm_vol_inv _ _ _ _ _ _ _ HA Hne) as (len & blocks & b5 & newlen & -> & -> & L60 & LH & EV & LB & N0 & L5 & _ & Lg & _ & _).
   cbn [v_length].
   set (b6 := splice 50 [0; 0] b5) in *.
   assert (L6 : zlen b6 = zlen b5) by (apply zlen_splice; change (zlen [0; 0]) with 2; lia).
@@ -1872,11 +2177,12 @@ Qed.
 Lemma no_false_alarm_volume_any pol ffs3 h buf files h' nb :
   asm_vol pol ffs3 h buf files = Ok (h', nb) -> files <> [] ->
   (forall c s rest, v_blocks h = (c, s) :: rest -> 0 < s < 2 ^ 32) -> zlen nb < 2 ^ 63 ->
+  pol = fv_polarity (v_attrs h) ->
   v_hdrlen h = 56 + 8 * (zlen (v_blocks h) + 1) -> v_rev h = 2 -> v_sig h = c09_fv_signature ->
   known_fv_guid (v_guid h) = true ->
   validate_vol h' nb = Ok [].
 Proof.
-  intros HA Hne Hs Hsm HH HR HSg HG. eapply asm_vol_clean; eauto. eapply asm_vol_len_any; eauto.
+  intros HA Hne Hs Hsm Hpol HH HR HSg HG. eapply asm_vol_clean; eauto. eapply asm_vol_len_any; eauto.
 Qed.
 
 (* ---- F.4 the same, phrased for what Assemble.Visit does to a node ---- *)
@@ -1902,11 +2208,12 @@ Qed.
 Lemma vol_asm_clean h buf kids' st n st' :
   vol_asm h buf kids' st = Ok (n, st') -> kids' <> [] ->
   (forall c s rest, v_blocks h = (c, s) :: rest -> 0 < s < 2 ^ 32) -> zlen (node_buf n) < 2 ^ 63 ->
+  fst st = fv_polarity (v_attrs h) ->
   v_hdrlen h = 56 + 8 * (zlen (v_blocks h) + 1) -> v_rev h = 2 -> v_sig h = c09_fv_signature ->
   known_fv_guid (v_guid h) = true ->
   exists h' nb, n = NVol h' nb kids' /\ validate_vol h' nb = Ok [].
 Proof.
-  intros HA Hne Hs Hsm HH HR HSg HG. unfold vol_asm in HA. destruct st as [pol ffs3].
+  intros HA Hne Hs Hsm Hpol HH HR HSg HG. unfold vol_asm in HA. destruct st as [pol ffs3]. cbn [fst] in Hpol.
   destruct (asm_vol pol ffs3 h buf kids') as [[h' nb]| | |] eqn:EA; cbn [bind] in HA; try discriminate.
   apply Ok_inj in HA. apply pair_equal_spec in HA. destruct HA as [<- _]. cbn [node_buf] in Hsm.
   exists h', nb. split; [reflexivity|]. eapply no_false_alarm_volume_any; eauto.
@@ -1942,7 +2249,7 @@ Definition node_kids (n : node) : list node :=
    followed by a second file; byte 22 of the first header (the top size byte, 00) becomes FF *)
 Definition ex_big_files : bytes :=
   pad8 255 (ex_file 17 1 0 (zrepeat 255 8 ++ zrepeat 7 (65535 - 32))) ++
-  pad8 255 (ex_file 34 1 64 [1; 2; 3; 4; 5]) ++ zrepeat 255 24.
+  pad8 255 (ex_file 34 1 0 [1; 2; 3; 4; 5]) ++ zrepeat 255 24.
 Definition ex_big : bytes := ex_fv_header FFS2 (72 + zlen ex_big_files) 327423 ++ ex_big_files.
 Definition ex_big' : bytes := splice 94 [255] ex_big.
 Definition ex_big_node := res_node (parse_fv dec0 u2s0 nvar0 3 240 ex_big 0 false).
@@ -1963,7 +2270,7 @@ Definition is_vol (n : node) : bool := match n with NVol _ _ _ => true | _ => fa
 Lemma ex_big_facts :
   let r := parse_fv dec0 u2s0 nvar0 3 240 ex_big 0 false in
   is_ok r = true /\ is_vol (res_node r) = true /\ res_pol r = 255 /\
-  validate (res_node r) = Ok [] /\ length (node_kids (res_node r)) = 2%nat /\
+  validate_gen false (res_node r) = Ok [] /\ validate (res_node r) = Ok [] /\ length (node_kids (res_node r)) = 2%nat /\
   v_dataoff (node_vh (res_node r)) = 72 /\ v_length (node_vh (res_node r)) = 65664 /\
   match file_at 72 (node_kids (res_node r)) 0 with
   | Some (NFile fh _ _, o) => (o =? 72) && negb (attr_large (f_attr fh))
@@ -1973,17 +2280,19 @@ Proof.
   split; [vm_compute; reflexivity|]. split; [vm_compute; reflexivity|].
   split; [vm_compute; reflexivity|]. split; [vm_compute; reflexivity|].
   split; [vm_compute; reflexivity|]. split; [vm_compute; reflexivity|].
-  split; vm_compute; reflexivity.
+  split; [vm_compute; reflexivity|]. split; vm_compute; reflexivity.
 Qed.
 
 Lemma ex_big_facts' :
   let r := parse_fv dec0 u2s0 nvar0 3 240 ex_big' 0 false in
   is_ok r = true /\ is_vol (res_node r) = true /\ res_pol r = 255 /\
-  validate (res_node r) = Ok [] /\ length (node_kids (res_node r)) = 0%nat.
+  validate_gen false (res_node r) = Ok [] /\ validate (res_node r) = Ok [V_FV_FREESPACE] /\
+  length (node_kids (res_node r)) = 0%nat.
 Proof.
   cbv zeta.
   split; [vm_compute; reflexivity|]. split; [vm_compute; reflexivity|].
-  split; [vm_compute; reflexivity|]. split; vm_compute; reflexivity.
+  split; [vm_compute; reflexivity|]. split; [vm_compute; reflexivity|].
+  split; vm_compute; reflexivity.
 Qed.
 
 (* generic packaging (no big term in sight): from the computed facts to the readable statement *)
@@ -1991,31 +2300,34 @@ Lemma witness_from_facts (b b' : bytes) (r r' : outcome (node * Z)) :
   r = parse_fv dec0 u2s0 nvar0 3 240 b 0 false ->
   r' = parse_fv dec0 u2s0 nvar0 3 240 b' 0 false ->
   (is_ok r = true /\ is_vol (res_node r) = true /\ res_pol r = 255 /\
-   validate (res_node r) = Ok [] /\ length (node_kids (res_node r)) = 2%nat /\
+   validate_gen false (res_node r) = Ok [] /\ validate (res_node r) = Ok [] /\ length (node_kids (res_node r)) = 2%nat /\
    v_dataoff (node_vh (res_node r)) = 72 /\ v_length (node_vh (res_node r)) = 65664 /\
    match file_at 72 (node_kids (res_node r)) 0 with
    | Some (NFile fh _ _, o) => (o =? 72) && negb (attr_large (f_attr fh))
    | _ => false end = true) ->
   (is_ok r' = true /\ is_vol (res_node r') = true /\ res_pol r' = 255 /\
-   validate (res_node r') = Ok [] /\ length (node_kids (res_node r')) = 0%nat) ->
+   validate_gen false (res_node r') = Ok [] /\ validate (res_node r') = Ok [V_FV_FREESPACE] /\
+   length (node_kids (res_node r')) = 0%nat) ->
   bytes_ok b = true -> fv_hdr_extent b <= 72 -> single_change b (72 + 22) b' ->
   becomes_free_marker (sub 72 (65664 - 72) b') ->
   exists h buf kids fh fb fk,
     parse_fv dec0 u2s0 nvar0 3 240 b 0 false = Ok (NVol h buf kids, 255) /\
-    validate (NVol h buf kids) = Ok [] /\ bytes_ok b = true /\ fv_hdr_extent b <= v_dataoff h /\
+    validate_gen false (NVol h buf kids) = Ok [] /\ validate (NVol h buf kids) = Ok [] /\
+    bytes_ok b = true /\ fv_hdr_extent b <= v_dataoff h /\
     length kids = 2%nat /\
     file_at (v_dataoff h) kids 0 = Some (NFile fh fb fk, 72) /\
     prot_hdr (attr_large (f_attr fh)) 22 /\
     single_change b (72 + 22) b' /\
     becomes_free_marker (sub 72 (v_length h - 72) b') /\
     exists h' buf', parse_fv dec0 u2s0 nvar0 3 240 b' 0 false = Ok (NVol h' buf' [], 255) /\
-                    validate (NVol h' buf' []) = Ok [].
+                    validate_gen false (NVol h' buf' []) = Ok [] /\
+                    validate (NVol h' buf' []) = Ok [V_FV_FREESPACE].
 Proof.
   intros Hr Hr' F F' Hok Hext HS Hfm. rewrite <- Hr, <- Hr'. clear Hr Hr'.
-  destruct r as [[n p]| | |]; destruct F as (F1 & F2 & F3 & F4 & F5 & F6 & F7 & F8); try discriminate.
+  destruct r as [[n p]| | |]; destruct F as (F1 & F2 & F3 & F4 & F4' & F5 & F6 & F7 & F8); try discriminate.
   destruct n as [| |h buf kids|]; try discriminate.
   cbn [res_node res_pol node_vh node_kids] in *. subst p.
-  destruct r' as [[n' p']| | |]; destruct F' as (G1 & G2 & G3 & G4 & G5); try discriminate.
+  destruct r' as [[n' p']| | |]; destruct F' as (G1 & G2 & G3 & G4 & G4' & G5); try discriminate.
   destruct n' as [| |h' buf' kids'|]; try discriminate.
   cbn [res_node res_pol node_vh node_kids] in *. subst p'.
   destruct kids' as [|? ?]; [|discriminate].
@@ -2023,9 +2335,9 @@ Proof.
   destruct f as [|fh fb fk| |]; try discriminate.
   apply andb_true_iff in F8 as [Fo Fl]. apply Z.eqb_eq in Fo. subst o.
   exists h, buf, kids, fh, fb, fk. rewrite F6, F7.
-  split; [reflexivity|]. split; [exact F4|]. split; [exact Hok|]. split; [exact Hext|].
+  split; [reflexivity|]. split; [exact F4|]. split; [exact F4'|]. split; [exact Hok|]. split; [exact Hext|].
   split; [exact F5|]. split; [exact EA|]. split; [right; left; lia|]. split; [exact HS|].
-  split; [exact Hfm|]. exists h', buf'. split; [reflexivity|exact G4].
+  split; [exact Hfm|]. exists h', buf'. split; [reflexivity|]. split; [exact G4|exact G4'].
 Qed.
 
 Lemma ex_big_side : bytes_ok ex_big = true /\ fv_hdr_extent ex_big <= 72 /\
@@ -2035,19 +2347,22 @@ Proof.
   split; [vm_compute; reflexivity|]. split; [vm_compute; discriminate|]. vm_compute; reflexivity.
 Qed.
 
-(* every hypothesis of the file-header theorem except the side condition holds, the altered image
-   parses (both files have vanished) and validate reports nothing *)
+(* the pinned validate (neither repair) misses it: the image parses and validates clean, the altered
+   image parses (both files have vanished) and the pinned validate reports nothing; the repaired one
+   reports the free space *)
 Lemma free_marker_witness :
   exists b b' h buf kids fh fb fk,
     parse_fv dec0 u2s0 nvar0 3 240 b 0 false = Ok (NVol h buf kids, 255) /\
-    validate (NVol h buf kids) = Ok [] /\ bytes_ok b = true /\ fv_hdr_extent b <= v_dataoff h /\
+    validate_gen false (NVol h buf kids) = Ok [] /\ validate (NVol h buf kids) = Ok [] /\
+    bytes_ok b = true /\ fv_hdr_extent b <= v_dataoff h /\
     length kids = 2%nat /\
     file_at (v_dataoff h) kids 0 = Some (NFile fh fb fk, 72) /\
     prot_hdr (attr_large (f_attr fh)) 22 /\
     single_change b (72 + 22) b' /\
     becomes_free_marker (sub 72 (v_length h - 72) b') /\
     exists h' buf', parse_fv dec0 u2s0 nvar0 3 240 b' 0 false = Ok (NVol h' buf' [], 255) /\
-                    validate (NVol h' buf' []) = Ok [].
+                    validate_gen false (NVol h' buf' []) = Ok [] /\
+                    validate (NVol h' buf' []) = Ok [V_FV_FREESPACE].
 Proof.
   exists ex_big, ex_big'.
   exact (witness_from_facts ex_big ex_big' _ _ eq_refl eq_refl ex_big_facts ex_big_facts'
@@ -2111,8 +2426,8 @@ Lemma thm_file_header_detects d pol b b' fvoff res h buf kids pol' k fh fb fk o 
   parse_fv dec u2s nvar (S (S d)) pol b fvoff res = Ok (NVol h buf kids, pol') ->
   validate (NVol h buf kids) = Ok [] -> bytes_ok b = true -> fv_hdr_extent b <= v_dataoff h ->
   file_at (v_dataoff h) kids k = Some (NFile fh fb fk, o) ->
+  zlen b < 2 ^ 55 ->
   prot_hdr (attr_large (f_attr fh)) j -> single_change b (o + j) b' ->
-  ~ becomes_free_marker (sub o (v_length h - o) b') ->
   forall r, parse_fv dec u2s nvar (S (S d)) pol b' fvoff res = Ok r -> reports (fst r).
 Proof.
   intros HP HV Hok Hext Hat.
@@ -2141,70 +2456,6 @@ Lemma thm_bodysum_detects d pol b b' fvoff res h buf kids pol' k fh fb fk o :
 Proof. exact (file_bodysum_detects nvar (parse_section dec u2s nvar d) pol b b' fvoff res h buf kids pol' k fh fb fk o). Qed.
 
 End Parsers.
-
-Lemma zlen_0_inv {A} (l : list A) : zlen l = 0 -> l = [].
-Proof. destruct l; [reflexivity|]. rewrite zlen_cons. pose proof (zlen_nonneg l). lia. Qed.
-Lemma zlen_1_inv {A} (l : list A) : zlen l = 1 -> exists a, l = [a].
-Proof.
-  destruct l as [|a l]; [discriminate|]. rewrite zlen_cons. intros H.
-  rewrite (zlen_0_inv l) by lia. eauto.
-Qed.
-Lemma zlen_2_inv {A} (l : list A) : zlen l = 2 -> exists a b, l = [a; b].
-Proof.
-  destruct l as [|a l]; [discriminate|]. rewrite zlen_cons. intros H.
-  destruct (zlen_1_inv l ltac:(lia)) as [b ->]. eauto.
-Qed.
-
-(* when does a single header byte turn a clean file header into the free-space marker: exactly
-   when a size byte is raised to FF, the other two size bytes already are FF, the file is not
-   large (so it is at least 0xFFFF bytes long) and its body starts with eight FF bytes *)
-Lemma free_marker_class nvar rs pol fb fb' j h fbuf kids pol' :
-  file_body nvar rs pol fb = Ok (Some (NFile h fbuf kids), pol') ->
-  validate_file h fbuf = Ok [] -> bytes_ok fb = true -> single_change fb j fb' -> 0 <= j < 24 ->
-  becomes_free_marker fb' ->
-  20 <= j < 23 /\ attr_large (f_attr h) = false /\ f_size3 h <> 16777215 /\
-  rd 20 3 fb' = 16777215 /\ rd 24 8 fb = U64 - 1 /\ 65535 <= f_ext h.
-Proof.
-  intros HP HV Hok HS Hj (M1 & M2 & M3).
-  destruct (file_body_inv _ _ _ _ _ HP) as (L24 & [[_ K]|(FM & L32 & Lext & nv & kids0 & pol0 & K)]);
-    [discriminate|].
-  injection K as -> -> -> ->.
-  apply validate_file_clean in HV. destruct HV as (C1 & C2 & C3 & C4 & _).
-  unfold file_hs in C1. cbn [file_hdr_of file_hdr_gen f_attr f_size3 f_ext] in *.
-  pose proof (single_change_len _ _ _ HS) as Len.
-  assert (E8 : rd 24 8 fb' = rd 24 8 fb) by (eapply single_change_rd_same; [exact HS|lia|right; lia]).
-  rewrite E8 in M3.
-  assert (N3 : rd 20 3 fb <> 16777215).
-  { intros E. unfold is_free_marker in FM. rewrite E in FM. cbn [Z.eqb Pos.eqb andb] in FM.
-    specialize (L32 E). replace (zlen fb <? 32) with false in FM by lia. lia. }
-  assert (J : 20 <= j < 23).
-  { destruct (Z_lt_ge_dec j 20) as [Hlo|Hge]; [|destruct (Z_lt_ge_dec j 23) as [?|Hhi]; [lia|]].
-    - exfalso. apply N3. rewrite <- M1. symmetry. eapply single_change_rd_same; [exact HS|lia|right; lia].
-    - exfalso. apply N3. rewrite <- M1. symmetry. eapply single_change_rd_same; [exact HS|lia|left; lia]. }
-  assert (NL : attr_large (rd 19 1 fb) = false).
-  { destruct (attr_large (rd 19 1 fb)) eqn:E; [|reflexivity]. exfalso. apply N3. apply C3. reflexivity. }
-  split; [exact J|]. split; [exact NL|]. split; [exact N3|]. split; [exact M1|]. split; [exact M3|].
-  unfold file_ext_of in *. replace (rd 20 3 fb =? 16777215) with false in * by lia.
-  destruct (single_change_sub fb j fb' 20 3 HS ltac:(lia) ltac:(lia)) as (p & x & y & s & Eb & Eb' & Lp & Hne & Hx & Hy).
-  assert (OK3 : bytes_ok (p ++ x :: s) = true) by (rewrite <- Eb; apply bytes_ok_sub; exact Hok).
-  unfold rd in M1 |- *. change (Z.of_nat 3) with 3 in *. rewrite Eb' in M1. rewrite Eb.
-  assert (L3 : zlen (p ++ x :: s) = 3) by (rewrite <- Eb; apply zlen_sub; lia).
-  rewrite zlen_app, zlen_cons in L3.
-  rewrite bytes_ok_app, bytes_ok_cons in OK3.
-  apply andb_true_iff in OK3 as [OKp OKs]. apply andb_true_iff in OKs as [_ OKs].
-  destruct (Z.eq_dec j 20) as [J20|J20]; [|destruct (Z.eq_dec j 21) as [J21|J21]].
-  - assert (p = []) by (apply zlen_0_inv; lia). subst p.
-    destruct (zlen_2_inv s ltac:(lia)) as (s0 & s1 & ->).
-    cbn [bytes_ok forallb] in OKs. rewrite !andb_true_iff, !byte_ok_iff in OKs.
-    cbn [app le_dec] in *. lia.
-  - destruct (zlen_1_inv p ltac:(lia)) as (p0 & ->). destruct (zlen_1_inv s ltac:(lia)) as (s0 & ->).
-    cbn [bytes_ok forallb] in OKs, OKp. rewrite !andb_true_iff, !byte_ok_iff in OKs, OKp.
-    cbn [app le_dec] in *. lia.
-  - destruct (zlen_2_inv p ltac:(lia)) as (p0 & p1 & ->).
-    assert (s = []) by (apply zlen_0_inv; lia). subst s.
-    cbn [bytes_ok forallb] in OKp. rewrite !andb_true_iff, !byte_ok_iff in OKp.
-    cbn [app le_dec] in *. lia.
-Qed.
 
 Lemma report_propagates fixed h buf kids f : In f kids -> reports_gen fixed f ->
   reports_gen fixed (NVol h buf kids) /\ reports_gen fixed (NSec (sec_default 0 0 0 0 0) buf kids).
